@@ -81,8 +81,8 @@ def confirm(pid, src, name):
     dst = os.path.join(VERIF, 'seeded', name)
     os.makedirs(dst, exist_ok=True)
     # store the patch as a diff against current HEAD
-    rc, d = sh('git diff -- metric_learn', cwd=wt)
-    open(os.path.join(dst, 'patch.diff'), 'w').write(d)
+    # (byte-exact: some sources use CRLF line endings, which text-mode capture would destroy)
+    sh('git diff --binary -- metric_learn > %s' % os.path.join(dst, 'patch.diff'), cwd=wt)
     shutil.copy(demo, os.path.join(dst, 'demo.py'))
     meta = {}
     try:
